@@ -2589,6 +2589,16 @@ impl<'de> serde::de::Visitor<'de> for AnnotationsVisitor<'_> {
                     } else if handle > self.store.annotations_len() {
                         // expand the gaps, though this wastes memory if ensures that all references
                         // are valid without explicitly storing public identifiers.
+                        //(a number in the input must not bring the process down: fail if that much can't be allocated)
+                        let additional = handle - self.store.annotations_len();
+                        self.store
+                            .annotations
+                            .try_reserve(additional)
+                            .map_err(|_| {
+                                serde::de::Error::custom(
+                                    "temporary public identifier for annotation is out of range",
+                                )
+                            })?;
                         self.store.annotations.resize_with(handle, Default::default);
                     }
                 }
